@@ -79,8 +79,8 @@ CLAIMED = {
             "checks announced count, byte-exact in-order headers (mm fields removed for ancestor updates), "
             "metadata = BE16(mm payload length) || coinbase hash (hash recomputed independently from the full "
             "coinbase), brother count/sorting/permutation, and 0/1 exactly on total/partial success.",
-            "RLP decode/encode and block-field removal are modelled and differentially checked (no round-trip "
-            "theorem); 0/1 exactly on total/partial success is decided by correspondence + oracle; "
+            "the RLP model is tied to pyrlp by the correspondence streams (incl. headers on the length-form "
+            "boundaries); 0/1 exactly on total/partial success is decided by correspondence + oracle; "
             "keccak/SHA-256 uninterpreted"),
     "C06": ("Lean theorems about the chain walk for paths of any length: the target is reported valid iff every "
             "link on its path verifies against its certifier (root of trust for the topmost one); otherwise the "
